@@ -27,7 +27,7 @@ CODES = ["G0", "G1", "G1", "G1", "G2", "G3", "G10", "G11", "G20", "G21", "G28", 
          "M73", "G5", "G29", "G38.2", "G92.1", "M82", "M83", "M104", "M106", "T0", "T1", "M600", "G1.5", "g1", "g2", "m117", "G00", "G01",
          "M0", "G80", "M999"]
 LETTERS = "XYZEFIJRPSXYZEFXYLKABCDHOQUVWT"
-ints = st.one_of(st.integers(1, 25), st.integers(1, 25), st.integers(1, 25), st.sampled_from([40, 120, 155, 160, 200, 300])).flatmap(lambda n: st.text(alphabet="0123456789", min_size=n, max_size=n))
+ints = st.one_of(st.integers(1, 25), st.integers(1, 25), st.integers(1, 25), st.sampled_from([40, 120, 155, 160, 200, 300, 308])).flatmap(lambda n: st.text(alphabet="0123456789", min_size=n, max_size=n))
 decs = st.integers(1, 30).flatmap(lambda n: st.text(alphabet="0123456789", min_size=n, max_size=n))
 small = st.sampled_from(["0", "1", "2", "5", "10", "15", "20", "25", "0.5", "12.5", "7.25", "100", "0.001", "250"])
 number = st.one_of(small, small, small,
@@ -43,7 +43,8 @@ ARC_TEMPLATES = ["G2 X10 Y10 I0 J0", "G3 X10 Y10", "G2 I5 J0", "G3 I0 J-5", "G3 
 NEAR_R = ["4.9998", "4.99999999", "5.0000001", "5.0004", "-4.9998", "5", "-5", "4.9995", "5.0005"]
 MISC_TEMPLATES = ["G28", "G28 X", "G28 Z0", "G92 X0 Y0 Z0 E0", "G92 E", "G92", "M206 X5 Y-5 Z0.1", "M206", "G10 P1 L2 X0", "G10 S1", "G11 S1",
                   "G1 E-5 F1800", "G1 E5", "G1 F", "G1 X15 Y15", "G1 X15.5 Y16 E3", "G1 X40 Y40", "G0 Z", "G1 X15", "G91", "G90", "G20", "G21",
-                  "M117", "M117 X1 *;", "M204 S", "M205 X Y", "M73 P50 R", "G4", "G1 Z5", "G0 Z1.5", "G1 Z0.3 E1", "G1 Z2 F600"]
+                  "M117", "M117 X1 *;", "M204 S", "M205 X Y", "M73 P50 R", "G4", "G1 Z5", "G0 Z1.5", "G1 Z0.3 E1", "G1 Z2 F600",
+                  "G1 E-2", "G1 E-0.5", " G10 S1", "  G10", " G11", " G1 X15 Y15", "G1 E3"]
 
 
 @st.composite
@@ -108,6 +109,14 @@ def cases(draw):
         else:
             for c in draw(command()).split("\n"):
                 prog.append(["g", c])
+    if draw(st.integers(0, 40)) == 0:
+        # a long print: hundreds of distinct commands, parameterless ones recurring, then the early commands once more
+        head = list(prog[1:12])
+        for n in range(draw(st.sampled_from([280, 560, 1100]))):
+            prog.append(["g", "G1 X%d.%02d Y%d F%d" % (70 + n % 20, n % 100, 70 + n // 20, 1200 + n)])
+            if n % 37 == 5:
+                prog.append(["g", draw(st.sampled_from(["G10", "G11", "G28 X", "M400", "G92 E0", "G90"]))])
+        prog += head
     wrap = draw(st.lists(st.sampled_from(["", "", " ;c", "N", "\r\n", "\n"]), min_size=len(prog), max_size=len(prog)))
     return {"config": cfg, "regions": regions, "prog": prog, "wrap": wrap}
 
